@@ -175,6 +175,8 @@ func checkC17(p *core.Program, r *core.Report) {
 	r.Rule("R6", "the migration is a function of the template and its options: outside init, no function of the expressions package writes a package-level variable — by a store, a map update, or a mutating method of package sync (Map.Store/LoadOrStore/Swap/Delete, Once.Do excepted) called on it; a cache that outlives one call makes the output depend on what was migrated before")
 	r.Rule("R7", "the operand types the migration infers are the types the functions return: every entry name -> type of functionReturnTypes (which decides whether `+`/`-` next to a call becomes arithmetic or datetime arithmetic) names a function of the excellent function table whose implementation returns that type on every non-error path, or is listed")
 	c17R7(p, r)
+	r.Rule("R8", "a template migrator takes exactly the parameters its template takes: where the package formats a non-constant template with the parameters of the legacy call (fmt.Sprintf(template, params...)), the call is reached only on the equal edge of a comparison of len(params) with a count computed from that template — with fewer parameters fmt writes %!s(BADINDEX) into the expression, with more %!(EXTRA …), and neither parses (the caller's fallback for a known function with the wrong parameters, rendering the call unchanged, is only taken on an error)")
+	c17R8(p, r)
 	r.Rule("R5", "text outside expressions is copied: the template scanner is switched to unescapeBody=false, BODY tokens are written unchanged, and an expression that fails to migrate is re-emitted between the delimiters the scanner stripped")
 	r.Assumption("that each renamed or re-shaped function computes what the legacy function computed is not decided (no specification of the legacy functions is in the tree); argument order inside explicit-index templates is not decided")
 
@@ -1921,4 +1923,73 @@ func (c *c17) isParseOf(v, val ssa.Value) bool {
 	}
 	o := core.CalleeObj(&pc.Call)
 	return o != nil && core.ObjName(o) == "excellent.Parse" && stripIface(pc.Call.Args[0]) == stripIface(val)
+}
+
+// ---------------------------------------------------------------------------------------------- R8
+
+func c17R8(p *core.Program, r *core.Report) {
+	n := 0
+	for _, fn := range p.ModuleFunctions() {
+		if core.RelPkg(core.FuncPkgPath(fn)) != c17Pkg || p.IsTestFile(fn.Pos()) {
+			continue
+		}
+		for _, cs := range core.Calls(fn, false) {
+			o := core.CalleeObj(cs.Common())
+			if o == nil || core.ObjName(o) != "fmt.Sprintf" || len(cs.Common().Args) != 2 {
+				continue
+			}
+			format := cs.Common().Args[0]
+			if _, isConst := format.(*ssa.Const); isConst {
+				continue
+			}
+			// the variadic argument is a whole slice (not a literal list of values): its length is not fixed here
+			if core.VariadicArgs(cs.Common().Args[1]) != nil {
+				continue
+			}
+			// the []string parameter the values come from
+			var params *ssa.Parameter
+			for _, q := range fn.Params {
+				if sl, ok := q.Type().Underlying().(*types.Slice); ok && isStringType(sl.Elem()) {
+					params = q
+				}
+			}
+			if params == nil {
+				continue
+			}
+			n++
+			exact, how := false, "no comparison of len("+params.Name()+") with a count taken from the template decides the call"
+			for _, ce := range core.ControllingConds(cs.Instr.Block()) {
+				bo, ok := ce.Cond.(*ssa.BinOp)
+				if !ok {
+					continue
+				}
+				var other ssa.Value
+				if a, isLen := isLenCall(bo.X); isLen && a == ssa.Value(params) {
+					other = bo.Y
+				} else if a, isLen := isLenCall(bo.Y); isLen && a == ssa.Value(params) {
+					other = bo.X
+				}
+				if other == nil {
+					continue
+				}
+				fromTemplate := false
+				for w := range core.BackSlice(other, func(*ssa.Call) bool { return true }) {
+					if w == format || (canon(w) != "" && canon(w) == canon(format)) {
+						fromTemplate = true
+					}
+				}
+				if !fromTemplate {
+					continue
+				}
+				if (bo.Op == token.EQL && ce.Taken) || (bo.Op == token.NEQ && !ce.Taken) {
+					exact = true
+				} else {
+					how = "the comparison in front of the call is " + bo.Op.String() + ", not equality: one direction of a wrong parameter count gets through"
+				}
+			}
+			r.Check(exact, "R8", core.FuncName(fn)+"/Sprintf-with-exact-parameter-count", p.Pos(cs.Pos()), "reached only when len("+params.Name()+") equals the count taken from the template", how+": a legacy call with the wrong number of parameters is migrated, without an error, to an expression that does not parse")
+		}
+	}
+	r.Count("template_sprintf_sites", n)
+	r.Require("template_sprintf_sites", n, 1)
 }
